@@ -1,5 +1,116 @@
-"""The pipeline half of C06 (Batcher.tla FailStop properties + real pipeline runs with an injected failure)."""
+"""The pipeline half of C06: fail-stop of the checkpoint pipeline itself.
+
+ (1) TLC on Batcher.tla with the API allowed to fail at any call: after the failing call no further call
+     (NoCallAfterFailure), no caller released with success for an update that was not applied (ReleaseSound), no caller
+     parked forever (NoStuckWaiter + EveryProducerReturns under weak fairness).
+ (2) The real ExecutionState pipeline under detsched: every (plan, failing call number) of a family of plans, explored by
+     preemption-bounded DFS and random/PCT schedules.  Direct fail-stop oracle per execution; every execution is also
+     validated as a behaviour of Batcher.tla (BatcherTrace).
+"""
+from __future__ import annotations
+
+import json
+import random
+
+from harness import detsched as ds
+from harness.batch_harness import random_plan, run_batcher
+from harness.explore import explore
+from lib import tracecheck
+
+
+def failstop_oracle(ctx, r, scen):
+    """C06 on one pipeline execution with an injected API failure."""
+    evs = r["evs"]
+    if r["verdict"] in ("hang", "deadlock", "steps"):
+        ctx.violation("pipeline-hang-after-failure", f"a create_checkpoint caller never returns after the failed call: {r['verdict_info']}", scen)
+        return
+    failed_k = next((k for k, e in enumerate(evs) if e["ev"] == "ApiRet" and not e["ok"]), None)
+    if failed_k is None:
+        return
+    later_calls = [e for e in evs[failed_k + 1:] if e["ev"] == "ApiCall"]
+    if later_calls:
+        ctx.violation("call-after-failure", f"{len(later_calls)} checkpoint API call(s) issued after the failed call", scen)
+        return
+    delivered = {i for c in r["calls"] if c["ok"] for i in c["items"]}
+    for i, o in r["outcomes"].items():
+        if o == "ok" and i not in delivered:
+            ctx.violation("sync-success-without-delivery", f"synchronous create_checkpoint for update {i} returned normally although the "
+                          f"update never reached the backend (delivered={sorted(delivered)})", scen)
+            return
+    # every synchronous caller whose update was handed over and not delivered must have been released with the failure
+    for i, sync in r["syncs"].items():
+        if sync and i not in delivered and r["outcomes"].get(i) != "err":
+            ctx.violation("sync-not-failed", f"synchronous caller of undelivered update {i} was released with {r['outcomes'].get(i)!r}", scen)
+            return
+    # a create_checkpoint that STARTS after the failure flag is visible must raise at once (no put)
+    flag_k = next((k for k, e in enumerate(evs) if e["ev"] == "FlagSet"), None)
+    if flag_k is not None:
+        for k, e in enumerate(evs):
+            if e["ev"] == "PCheck" and k > flag_k and not e["seen"]:
+                ctx.violation("failure-flag-not-seen", "a caller read the failure flag as clear after it was set", scen)
+                return
 
 
 def run_part(ctx):
-    pass
+    from checks import c05
+    cur = "current code"
+    if ctx.quick:
+        c05.tlc_cfg(ctx, "c06-batcher-failstop", c05.cfg_text(spec="Spec", sizes="{1, 3}", mayfail=True, live="", symmetry=True),
+                    f"Batcher.tla fail-stop ({cur}): 2 producers x 2 calls, sizes {{1,3}}, API may fail at any call; NoCallAfterFailure, "
+                    "ReleaseSound, NoStuckWaiter (safety, producer symmetry)")
+        c05.tlc_cfg(ctx, "c06-batcher-failstop-live", c05.cfg_text(sizes="{3}", mayfail=True),
+                    f"Batcher.tla fail-stop liveness ({cur}): every update oversize, API may fail; EveryProducerReturns (WF)")
+    else:
+        c05.tlc_cfg(ctx, "c06-batcher-failstop", c05.cfg_text(sizes="{1, 3}", mayfail=True),
+                    f"Batcher.tla fail-stop ({cur}): 2 producers x 2 calls, sizes {{1,3}}, API may fail at any call; NoCallAfterFailure, "
+                    "ReleaseSound, NoStuckWaiter, EveryProducerReturns (WF)", timeout_s=3000)
+    rng = random.Random(ctx.seed + 66)
+    traces, scens = [], []
+
+    def record(r, scen):
+        ctx.case(("pipe", json.dumps(scen["plan"], sort_keys=True), tuple(r["choices"] or ())[:400]))
+        failstop_oracle(ctx, r, scen)
+        c05.check_run(ctx, r, scen)
+        traces.append({"maxops": r["plan"]["maxops"], "maxbytes": r["plan"]["maxbytes"], "evs": r["evs"], "hung": r["verdict"] is not None})
+        scens.append(scen)
+
+    # (a) systematic: small plans x failing call number x preemption-bounded DFS
+    fam = [
+        {"producers": [[[300, True]], [[300, True]]], "maxops": 1, "maxbytes": 1000, "window": 0.0},
+        {"producers": [[[300, False], [300, True]], [[300, True]]], "maxops": 2, "maxbytes": 1000, "window": 0.0},
+        {"producers": [[[300, False], [300, False], [300, True]]], "maxops": 250, "maxbytes": 500, "window": 0.0},
+        {"producers": [[[300, True], [300, True]], [["empty", True]]], "maxops": 250, "maxbytes": 1000, "window": 0.05},
+    ]
+    budget = 60 if ctx.quick else 1500
+    for base in fam:
+        for fail_at in (1, 2, 3):
+            plan = dict(base, fail_at=fail_at)
+            for r, _st in explore(lambda s, p=plan: run_batcher(p, s), max_preempt=2, max_runs=budget):
+                record(r, {"kind": "batcher", "plan": plan, "choices": r["choices"], "mode": "dfs"})
+    # (b) random plans, always with a failure
+    for k in range(100 if ctx.quick else 3000):
+        plan = random_plan(rng)
+        plan["fail_at"] = rng.choice([1, 1, 2, 3])
+        seed = rng.randrange(1 << 30)
+        strat = ds.PCTStrategy(seed, depth=rng.choice([1, 2, 3]), est_steps=300, p_time=0.03) if k % 2 else \
+            ds.RandomStrategy(seed, p_time=rng.choice([0.0, 0.02, 0.08]))
+        r = run_batcher(plan, strat)
+        record(r, {"kind": "batcher", "plan": plan, "choices": r["choices"], "mode": "random"})
+    ctx.notes["pipeline_failstop_runs"] = len(traces)
+    # (c) trace validation against Batcher.tla
+    groups = {}
+    for t, s in zip(traces, scens):
+        groups.setdefault((t["maxops"], t["maxbytes"]), []).append((t, s))
+    for (mo, mb), lst in sorted(groups.items()):
+        sizes = sorted({e["size"] for t, _ in lst for e in t["evs"] if e["ev"] == "Put"})
+        text = c05.cfg_text(spec="TraceSpec", producers='{"p1", "p2", "p3"}', nitems=4, sizes="{" + ", ".join(map(str, sizes)) + "}",
+                            maxops=mo, maxbytes=mb, properties=("NoCallAfterFailure",), live="")
+        text = text.replace("CHECK_DEADLOCK FALSE", "CONSTRAINT Progress\nCONSTRAINT Prune\nPOSTCONDITION Accepted\nCHECK_DEADLOCK FALSE")
+        tracecheck.validate(ctx, "BatcherTrace", "", [t for t, _ in lst], [s for _, s in lst], f"c06-pipe-trace-{mo}-{mb}",
+                            cfg_text=text, classify=lambda trace, scen, reached: None,
+                            label=f"trace validation of {len(lst)} failing pipeline executions (MaxOps={mo}, MaxBytes={mb})")
+
+
+def replay(d):
+    from checks import c05
+    return c05.replay(d)
